@@ -257,8 +257,14 @@ class Gen:
         if cls.startswith("Key") and r.random() < 0.9:
             as_list = False
 
+        EQUAL_VALUES = [1, True, 1.0, 0, False, 0.0, 2, 2.0, "1", "", None]
+
         def item():
             y = r.random()
+            if ctor in ("is_instance", "equal_to", "eq", "not_equal_to", "in_", "not_in", "truthy", "falsy") or cls.endswith("DataType"):
+                # values that compare equal but differ in type (1 == True == 1.0), in any order
+                if y < 0.5:
+                    return r.choice(EQUAL_VALUES)
             if ctor in self.MAP:
                 return self.dict_(1, allow_empty=True) if y < 0.8 else self.value(1)
             if ctor in ("factor_of", "has_factor", "equal_to_approx", "in_range", "not_in_range"):
